@@ -248,6 +248,9 @@ func runC02(w *World, r *Report) {
 		for _, k := range set {
 			for _, fi := range w.Constructors(k) {
 				if !mapped[fi.Key] {
+					if !ast.IsExported(fi.Decl.Name.Name) {
+						continue // an unexported helper of the constructors: decided through the exported ones, which inline it
+					}
 					r.Fail(VUnmapped, "code", fi.Key, "", w.Pos(fi.Decl.Pos()), "constructor of an action / instruction kind has no row in spec/codes.json: its type code is not checked")
 				}
 			}
